@@ -358,6 +358,17 @@ func (e *Explorer) block(fn *ssa.Function, b, pred *ssa.BasicBlock, st *State, f
 		emit(Outcome{Effects: st.effects, End: "bound", StopBlock: b, Unknown: st.unknown, st: st})
 		return
 	}
+	if st.visits[b] > 1 {
+		// a block entered again defines its values anew: what an earlier iteration
+		// assumed about them (a forked loop condition) does not carry over
+		for _, in := range b.Instrs {
+			if v, ok := in.(ssa.Value); ok {
+				if _, isPhi := in.(*ssa.Phi); !isPhi {
+					delete(st.env, v)
+				}
+			}
+		}
+	}
 	// φ nodes take the value of the incoming edge
 	if pred != nil {
 		vals := map[*ssa.Phi]AVal{}
